@@ -46,13 +46,21 @@ Frame = Tuple[int, bytes]
 
 
 def run_stream(sm: Any, frames: Sequence[Frame]) -> Tuple[Dict[int, List[bytes]], Optional[str]]:
+    """What a consumer that KEEPS the reported telegram objects holds at the end of the stream
+    (a telegram that is reported correctly and later changes under the consumer's hands was not
+    reported "exactly"); a telegram that changed is returned in its final state."""
     out: Dict[int, List[bytes]] = {}
+    kept: List[Tuple[int, int, Any]] = []
     for n, (cid, data) in enumerate(frames):
         try:
             for rid, pl in sm.decode_rx_frame(cid, data):
                 out.setdefault(rid, []).append(bytes(pl))
+                kept.append((rid, len(out[rid]) - 1, pl))
         except Exception as e:
             return out, f"frame {n} ({cid:x}#{data.hex()}): {type(e).__name__}: {e}"
+    for rid, idx, obj in kept:
+        if bytes(obj) != out[rid][idx]:
+            out[rid][idx] = bytes(obj)  # shows up as 'telegram-altered'
     return out, None
 
 
@@ -260,6 +268,28 @@ def part_lengths(task: Tuple, col: common.Collector) -> None:
                limit=2)
 
 
+def part_long(task: Tuple, col: common.Collector) -> None:
+    """Telegrams near the 12-bit length limit and around 256 consecutive frames (the block size
+    counter of the active decoder wraps there), each followed by another segmented telegram on
+    the same ID; telegrams that exactly fill their last frame, followed by another one."""
+    (tier,) = task
+    n = 0
+    for L in (1791, 1792, 1795, 1798, 1799, 3584, 3590, 4094, 4095):
+        for L2 in (20, 13):
+            p1, p2 = payload_for(L % 251, L), payload_for(L2 + 3, L2)
+            frames = [(IDS[0], f) for f in segment(p1, 8, None)] + [(IDS[0], f) for f in segment(p2, 8, 0xAA)]
+            meta = {"L": L, "tx_dl": 8, "padding": None, "class": "long-telegram-then-segmented"}
+            judge(col, "long", frames, {IDS[0]: [p1, p2]}, meta, text_too=(n % 6 == 0), active_too=True)
+            n += 1
+    for L in (13, 20, 27, 118):   # no padding to cut off in the last consecutive frame
+        p1, p2, p3 = payload_for(L, L), payload_for(L + 1, L + 7), payload_for(L + 2, 9)
+        frames = [(IDS[0], f) for p in (p1, p2, p3) for f in segment(p, 8, None)]
+        judge(col, "long", frames, {IDS[0]: [p1, p2, p3]},
+              {"L": L, "tx_dl": 8, "padding": None, "class": "exact-fill-then-segmented"},
+              text_too=True, active_too=True)
+    col.count("long_streams", n)
+
+
 SEQ_LIBRARY = [
     # (description, list of (length, tx_dl))
     [(3, 8)],
@@ -399,6 +429,7 @@ def run(tier: str, col: common.Collector) -> None:
     paddings = [None, 0x00, 0xAA, 0xCC]
     tasks = [(tier, d, p) for d in FD_DLCS for p in paddings]
     common.pmap(part_lengths, tasks, col)
+    common.pmap(part_long, [(tier,)], col)
     combos = merge_combos(tier)
     r = random.Random(common.seed())
     if tier == "quick":
@@ -411,7 +442,8 @@ def run(tier: str, col: common.Collector) -> None:
     nrand = 120 if tier == "quick" else 1500
     common.pmap(part_random, [(w, nrand) for w in range(common.NCPU)], col)
     col.notes["merge_combinations"] = len(combos)
-    for need in ("text_logs_read", "first_frames_acknowledged", "merge_streams", "random_streams"):
+    for need in ("text_logs_read", "first_frames_acknowledged", "merge_streams", "random_streams",
+                 "long_streams"):
         if not col.counters.get(need):
             col.fail_inconclusive(f"monitor counter {need} stayed at zero")
 
